@@ -80,6 +80,7 @@ class Universe:
             from pyrates import EdgeTemplate
             etmp = EdgeTemplate('et_' + c, operators=[OperatorTemplate('E', equations=[f"m_out = {float(EDGE_GAIN[c])}*m_in"],
                                                                         variables={'m_out': 'output(0.0)', 'm_in': 'input(0.0)'})])
+            self.etmps = getattr(self, 'etmps', {}); self.etmps[c] = etmp
             for s, t, w in CIRC_EDGES[c]:
                 sn, tn = nodes[s - 1], nodes[t - 1]
                 ed.append((f"{sn[0]}/{OPS[NT_OP[sn[1]]]['name']}/x", f"{tn[0]}/{OPS[NT_OP[tn[1]]]['name']}/u", etmp, {'weight': w}))
@@ -182,7 +183,12 @@ class Universe:
             from pyrates import clear_frontend_caches
             clear_frontend_caches(); return None
         if a == 'derive':
-            self.circs['d1'] = self.circs['c1'].update_template(name='d1')
+            if call.get('vec'):      # derive with an additional edge b -> c (same edge template as c1's edges)
+                self.circs['d1'] = self.circs['c1'].update_template(name='d1', edges=[('b/A/x', 'c/A/u', self.etmps['c1'], {'weight': 2.0})])
+                CIRC_EDGES['d1'] = list(CIRC_EDGES['c1']) + [(2, 3, 2.0)]
+            else:
+                self.circs['d1'] = self.circs['c1'].update_template(name='d1')
+                CIRC_EDGES['d1'] = list(CIRC_EDGES['c1'])
             return None
         if a == 'from_yaml':
             from pyrates import CircuitTemplate
